@@ -283,6 +283,26 @@ def run(R):
                     key = 'panic:%s:%s:%s' % (short(b.path), kind, what)
                     ok, why = discharge(tonic, b, bb, kind, what, t, dc)
                     R.check(ok, 'C07.R2', key, site(b, bb), why)
+        # allocation sizes: BytesMut::reserve / Vec::with_capacity panic ("capacity overflow") or abort on an absurd size; on the receive
+        # path their argument may be computed from the frame length (bounded by the limit test) and the buffer settings, never from a
+        # number read out of the payload (a content-size field of a compressed frame is the peer's word)
+        ARITH = {'min', 'max', 'saturating_mul', 'saturating_add', 'saturating_sub', 'checked_mul', 'checked_add', 'wrapping_mul', 'wrapping_add', 'unwrap_or', 'unwrap_or_default',
+                 'next_multiple_of', 'div_ceil', 'next_power_of_two', 'len', 'remaining', 'capacity', 'from', 'into', 'try_from', 'try_into', 'clone', 'deref', 'unwrap', 'expect', 'remaining_mut',
+                 'get_u32'}   # the length prefix itself (C06.R1: reserve only behind the limit test)
+        n_alloc = 0
+        for p in sorted(rs):
+            for b in tonic.by_path[p]:
+                if b.kind == 'promoted' or not re.search(r'codec::(compression|decode)::', b.path):
+                    continue
+                for bb, t in b.calls():
+                    if t.get('name') not in ('reserve', 'with_capacity', 'reserve_exact', 'resize', 'try_reserve') or len(t['args']) < 1:
+                        continue
+                    n_alloc += 1
+                    sz = b.origin(t['args'][-1] if t.get('name') != 'resize' else t['args'][1])
+                    foreign = find_terms(sz, lambda x: is_call(x) and x[3] not in ARITH)
+                    R.check(not foreign, 'C07.R2', 'alloc-size:%s:%s' % (short(b.path).split('::')[-1], t.get('name')), site(b, bb),
+                            'size = %s; computed from %s' % (show(sz)[:90], 'the frame length and settings only' if not foreign else 'the result of %s' % short(foreign[0][1])[-60:]))
+        R.floor('C07.R2', 'allocation sites on the receive path', n_alloc, 2)
         R.floor('C07.R2', 'bodies in reach', len(rs), 25)
         R.floor('C07.R2', 'panic sites examined', n_sites, 12)
 
